@@ -24,9 +24,11 @@ pub(crate) fn rem(
     divisor_n_frac_digits: u8,
 ) -> Result<(i128, u8), DecimalError> {
     match divident_n_frac_digits.cmp(&divisor_n_frac_digits) {
-        Ordering::Equal => {
-            Ok((divident_coeff % divisor_coeff, divident_n_frac_digits))
-        }
+        Ordering::Equal => Ok((
+            // i128::MIN % -1 == 0, but the `%` operator panics
+            divident_coeff.wrapping_rem(divisor_coeff),
+            divident_n_frac_digits,
+        )),
         Ordering::Greater => match checked_mul_pow_ten(
             divisor_coeff,
             divident_n_frac_digits - divisor_n_frac_digits,
@@ -45,7 +47,7 @@ pub(crate) fn rem(
                     divisor_n_frac_digits,
                 )),
                 None => {
-                    let mut rem = divident_coeff % divisor_coeff;
+                    let mut rem = divident_coeff.wrapping_rem(divisor_coeff);
                     while rem != 0 && shift > 0 {
                         match rem.checked_mul(10) {
                             Some(shifted_rem) => {
